@@ -91,7 +91,7 @@ CHECKS = {
  "C01": dict(
   technique="bounded-exhaustive enumeration of block histories, each executed on a reference node and replayed on independently constructed replicas under enumerated nondeterminism policies (forced map-iteration seed, shifted wall clock, interleaved CheckTx/queries, construction order), all ABCI responses and app hashes compared",
   engine="E2",
-  text="996 histories (quick): every template of a 21-template alphabet (bank, multi-denomination, EVM transfer / create / a call dirtying 5 slots and 4 fresh accounts in unsorted order / bank-precompile query from a contract, staking and distribution precompiles, staking messages, clawback vesting account with two denominations, DAO fund / ratio transfer, liquidation with token-pair registration, ERC20 conversion, ERC20 transfer and ERC20 sent to the module address, full redeem, failing transactions, double-sign evidence, downtime) alone, every ordered pair in consecutive blocks and in one block; four governance flows that really pass (EVM params, fee-market params, ERC20 params, token-pair toggle) alone and followed by every template once in effect; five life-cycle chains (switch off, use, switch on, use); thorough adds pairs across a 30-day gap and all triples. The concrete blocks recorded on the reference node are replayed on 7 (thorough 23) fresh replicas whose Go map iteration is forced (runtime overlay) to a distinct start bucket/offset, with time.Now shifted by 400 days, CheckTx/gRPC queries interleaved between ABCI calls (including eth_call / estimateGas that execute the EVM at the latest and at old heights, old heights first on some replicas) and a second app object constructed first. DeliverTx (code, data, gas, events, log), EndBlock (validator / consensus-param updates), BeginBlock events and Commit app hash must be identical; divergences are attributed by re-running with the sources separated.",
+  text="996 histories (quick): every template of a 21-template alphabet (bank, multi-denomination, EVM transfer / create / a call dirtying 5 slots and 4 fresh accounts in unsorted order / bank-precompile query from a contract, staking and distribution precompiles, staking messages, clawback vesting account with two denominations, DAO fund / ratio transfer, liquidation with token-pair registration, ERC20 conversion, ERC20 transfer and ERC20 sent to the module address, full redeem, failing transactions, double-sign evidence, downtime) alone, every ordered pair in consecutive blocks and in one block; four governance flows that really pass (EVM params, fee-market params, ERC20 params, token-pair toggle) alone and followed by every template once in effect; five life-cycle chains (switch off, use, switch on, use); thorough adds pairs across a 30-day gap and all triples. The concrete blocks recorded on the reference node are replayed on 7 (thorough 23, triples 7) fresh replicas whose Go map iteration is forced (runtime overlay) to a distinct start bucket/offset, with time.Now shifted by 400 days, CheckTx/gRPC queries interleaved between ABCI calls (including eth_call / estimateGas that execute the EVM at the latest and at old heights, old heights first on some replicas) and a second app object constructed first. DeliverTx (code, data, gas, events, log), EndBlock (validator / consensus-param updates), BeginBlock events and Commit app hash must be identical; divergences are attributed by re-running with the sources separated.",
   note="One forced random word for all maps at a time. Validator set of 2. ABCI level (no consensus engine). The DeliverTx log is compared up to its first line break (SDK errors formatted with %+v append the process call stack; ABCI declares the log non-deterministic).",
   design="DESIGN.md §3 C01"),
  "C20": dict(
